@@ -1,4 +1,5 @@
 import MoSql.Props.C04
+import MoSql.Lemmas.SourcesProps
 /-!
 C03 — parse → format → parse is the identity on the formatter-supported fragment.
 The expression core is carried by the C01/C04 theorems; the clause level is decided by the
@@ -33,5 +34,36 @@ theorem no_outer_parens (k : Nat) (l r : T) (hk : (Gen.fmtOps.getD k default).pr
   have hb : bare 200 (Gen.fmtOps.getD k default) = true := by
     simp [bare]; left; exact hk
   simp only [fmtE, hb, if_true]
+
+/-! ### the list of sources after FROM (`Formatter._sources`, `_join_on`) -/
+section Sources
+open MoSql.Sources
+
+/-- **The list after FROM is always written well separated**: for every list of sources of any length — plain sources,
+explicit joins with or without a condition, parenthesised groups nested to any depth, in any order, also a join first or
+an empty group — a comma is written only between two complete things, a join word never behind a comma, and no two
+sources side by side (the automaton `Sources.step`). -/
+theorem sources_well_separated (items : List Item) : wellSeparated (fmt items) = true := by
+  have h := scan_fmtItems items [] .start (Or.inl rfl) (Or.inl rfl)
+  unfold wellSeparated fmt
+  rcases h with h | h <;> simp [h]
+
+/-- … and its brackets match. -/
+theorem sources_balanced (items : List Item) : balanced (fmt items) = true := by
+  have h := balanced_fmtItems items [] 0 rfl
+  simp [balanced, fmt, h]
+
+/-- a list where it matters: a group as a member of the list, a group as the target of a join, a join inside a group -/
+example :
+    fmt [.plain (.tbl "a"), .plain (.group [.plain (.tbl "b"), .join "JOIN" (.tbl "c") (.on 1)]),
+         .join "LEFT JOIN" (.group [.plain (.tbl "d"), .join "CROSS JOIN" (.tbl "e") .none]) (.using 2)]
+      = [.name "a", .comma, .lp, .name "b", .join "JOIN", .name "c", .on 1, .rp,
+         .join "LEFT JOIN", .lp, .name "d", .join "CROSS JOIN", .name "e", .rp, .using 2] := by decide
+
+/-- what the formatter wrote before repair 284e8ac, `a JOIN (b, JOIN c ON …) ON …`, is not well separated -/
+example : wellSeparated [.name "a", .join "JOIN", .lp, .name "b", .comma, .join "JOIN", .name "c", .on 1, .rp, .on 2] = false := by
+  decide
+
+end Sources
 
 end MoSql.Props.C03
